@@ -95,3 +95,6 @@ func TempFile(content string) string { return "" }
 
 // LockModel: sync.Mutex / sync.RWMutex block and are scheduling points (engine only; see intrinsics.go).
 func LockModel(on bool) {}
+
+// Origin: for a value produced by a call the engine does not interpret, the name of that call ("" otherwise / natively).
+func Origin(v any) string { return "" }
